@@ -91,7 +91,9 @@ Class(e) == LET F == Feat(e.orig) IN
             ELSE IF "nil-pointer-element" \in F THEN "nil-pointer-element"
             ELSE IF e.tagkeyed /\ ~Same(e.orig, AsImpl6(e.orig)) /\ Same(e.res, AsImpl6(e.orig)) THEN "tag-names-other-member" ELSE "-"
 \* a call that does not return (watchdog in the harness: the child process was killed or died) is a violation of its own kind
-JudgeRt(e) == IF e.hang THEN <<[i |-> c, kind |-> "hang", api |-> e.api, pos |-> 0, pred |-> <<>>, m |-> e.m,
+\* (e.skip: the same kinds already have a hang / death confirmed stand-alone in this run; the call was not re-run for another
+\* minute and takes no part in the judgement)
+JudgeRt(e) == IF e.skip THEN <<>> ELSE IF e.hang THEN <<[i |-> c, kind |-> "hang", api |-> e.api, pos |-> 0, pred |-> <<>>, m |-> e.m,
                                  t |-> IF "embedded-pointer-cycle" \in Feat(e.orig) THEN "embedded-pointer-cycle" ELSE "-"]>> ELSE
               (IF e.ok /\ Same(e.res, e.orig) THEN <<>>
                ELSE <<[i |-> c, kind |-> "not-inverse", api |-> e.api, t |-> Class(e), pos |-> 0, pred |-> <<>>, m |-> e.m]>>)
